@@ -28,6 +28,7 @@ RULE = (
     "optional tournament selection, mutate), seed); every (agent, generation) is one evaluation of the monitors. "
     "Non-trivial = at least one architecture / parameter / activation / rl_hp mutation was really applied (label != None) "
     "AND the learn probe ran; distinct = distinct case descriptions"
+    " Added: RSNorm-wrapped populations for DQN / Rainbow / CQN / DDPG / TD3 on vector / image observations"
 )
 ASSUMPTIONS = [
     "the applied kind is read from class-level recording wrappers on Mutations' five mutation methods",
